@@ -1,9 +1,22 @@
-"""Refreshes the generated table of DESIGN.md section 15."""
-import os, subprocess, sys
+"""Refreshes the generated tables of DESIGN.md: section 15 (seeded changes) and the
+"which runs decide which property" table of section 0 (read from harness/props/Cxx.py)."""
+import os, re, subprocess, sys
 V = os.path.dirname(os.path.dirname(os.path.abspath(__file__)))
 t = subprocess.run([sys.executable, os.path.join(V, 'harness', 'seeded_table.py')], capture_output=True, text=True).stdout
 p = os.path.join(V, 'DESIGN.md')
 s = open(p).read()
 a, b = '<!-- seeded-table-begin -->', '<!-- seeded-table-end -->'
 i, j = s.index(a) + len(a), s.index(b)
-open(p, 'w').write(s[:i] + '\n' + t + s[j:])
+s = s[:i] + '\n' + t + s[j:]
+
+rows = ['| property | correspondence parts run by its check (`harness/props/Cxx.py`; part name = module.function) |', '|---|---|']
+for k in range(1, 18):
+    pid = 'C%02d' % k
+    src = open(os.path.join(V, 'harness', 'props', pid + '.py')).read()
+    parts = re.findall(r"Part\('([a-z_0-9]+)',\s*'([a-z_]+)',\s*'([a-z_]+)'", src)
+    rows.append('| %s | %s |' % (pid, ', '.join('`%s` = %s.%s' % (n, m, f) for n, m, f in parts)))
+a, b = '<!-- parts-table-begin -->', '<!-- parts-table-end -->'
+if a in s:
+    i, j = s.index(a) + len(a), s.index(b)
+    s = s[:i] + '\n' + '\n'.join(rows) + '\n' + s[j:]
+open(p, 'w').write(s)
